@@ -440,6 +440,22 @@ func c11Hooks(r *core.Run) {
 				nilRej = true
 			}
 		}
+		// the append happens after the validation loop, not inside it: a rejected call registers nothing
+		inLoop := false
+		for _, b := range regFn.Blocks {
+			for _, in := range b.Instrs {
+				if st, isS := in.(*ssa.Store); isS {
+					if fa, isFA := st.Addr.(*ssa.FieldAddr); isFA && core.FieldOfAddr(fa) == h.field {
+						if _, l := core.InnermostLoop(b); l != nil {
+							inLoop = true
+						}
+					}
+				}
+			}
+		}
+		if inLoop {
+			okR, whyR = false, "hooks are appended inside the validation loop: a call that is rejected because of a nil hook has already registered the hooks before it, and repeating the call registers them twice"
+		}
 		r.Check(okR && nilRej, "R11.4", h.reg+": appends under nil rejection", regFn.Pos(), "nil hooks rejected with an error, then appended to the dispatch slice", map[bool]string{true: "nil hooks are not rejected: dispatch would panic in the reader goroutine", false: whyR}[okR])
 	}
 }
